@@ -51,7 +51,7 @@ def violations(prop, root):
         return set(), [str(e)]
     except Exception as e:  # internal error = analysis error
         return set(), [f"internal: {type(e).__name__}: {e}"]
-    return {(o.rule, o.construct) for o in ctx.rep.obs if not o.ok}, list(ctx.rep.analysis_errors)
+    return {(o.rule, o.construct) for o in ctx.rep.obs if not o.ok and not o.undecided}, list(ctx.rep.analysis_errors)
 
 
 def baseline(prop):
@@ -74,7 +74,7 @@ def scan(args):
             bad, errs = violations(p, tmp)
             new = sorted(b for b in bad if list(b) not in base[p] and tuple(b) not in [tuple(x) for x in base[p]])
             if new or errs:
-                out[p] = {"rules": sorted({b[0] for b in new}), "constructs": [f"{b[0]} {b[1][:80]}" for b in new][:6], "errors": errs[:2]}
+                out[p] = {"rules": sorted({b[0] for b in new}), "constructs": [f"{b[0]} {b[1][:100]}" for b in new][:12], "errors": errs[:2]}
         return label, out, None
     finally:
         shutil.rmtree(tmp, ignore_errors=True)
@@ -116,6 +116,12 @@ def main():
         else:
             none += 1
         print(f"{lab:10s} own={','.join(mine) or '-':28s} other={','.join(others) or '-'}" + (f"  [analysis-error in own check: {errs_own[0][:80]}]" if errs_own and not mine else ""))
+        if "--verbose" in sys.argv:
+            for p, v in sorted(out.items()):
+                for c in v["constructs"]:
+                    print("      ", c)
+                for e in v["errors"]:
+                    print("       ANALYSIS-ERROR", p, e[:120])
         if update and own:
             mp = os.path.join(sd, lab, "meta.json")
             meta = json.load(open(mp))
